@@ -83,3 +83,128 @@ Definition children_coverb (children : list (list N)) (n : nat) : bool :=
 Definition pre_ssa_ok (c : cfg) : bool :=
   phi_free c && decls_ok c && forallb (is_local_in (c_decls c)) (c_params c).
 
+
+(* ------------------------------------------------------------------------ *)
+(* Hypotheses of the dynamic theorem about the construction                  *)
+(* (Proofs.SsaDominance.into_ssa_paths_ok): decidable conditions on the      *)
+(* graph BEFORE the conversion and on the children table.                    *)
+(* ------------------------------------------------------------------------ *)
+Definition isnoneb {A} (o : option A) : bool := match o with None => true | Some _ => false end.
+
+(* no variable occurrence that the renaming visits carries a version yet *)
+Fixpoint expr_unvb (e : expr) : bool :=
+  let fix l_unv (es : list expr) : bool :=
+      match es with [] => true | x :: tl => expr_unvb x && l_unv tl end in
+  let fix a_unv (acc : list (access expr)) : bool :=
+      match acc with
+      | [] => true
+      | AComp _ :: tl => a_unv tl
+      | AIdx x :: tl => expr_unvb x && a_unv tl
+      end in
+  match e with
+  | ENum _ _ | EPhi _ _ => true
+  | EVar v _ => isnoneb (vn_version v)
+  | EInfix _ l r _ => expr_unvb l && expr_unvb r
+  | EPrefix _ x _ => expr_unvb x
+  | ESwitch c t f _ => expr_unvb c && expr_unvb t && expr_unvb f
+  | ECall _ args _ => l_unv args
+  | EArray vs _ => l_unv vs
+  | EAccess v acc _ => isnoneb (vn_version v) && a_unv acc
+  | EUpdate v acc rhe _ => isnoneb (vn_version v) && a_unv acc && expr_unvb rhe
+  end.
+Fixpoint list_unvb (es : list expr) : bool :=
+  match es with [] => true | x :: tl => expr_unvb x && list_unvb tl end.
+Fixpoint acc_unvb (acc : list (access expr)) : bool :=
+  match acc with
+  | [] => true
+  | AComp _ :: tl => acc_unvb tl
+  | AIdx x :: tl => expr_unvb x && acc_unvb tl
+  end.
+Definition logarg_unvb (a : logarg) : bool := match a with LStr => true | LExpr e => expr_unvb e end.
+Definition stmt_unvb (s : stmt) : bool :=
+  match s with
+  | SDecl _ _ _ dims => list_unvb dims
+  | SSubst _ v _ rhe _ _ => isnoneb (vn_version v) && expr_unvb rhe
+  | SCeq _ l r => expr_unvb l && expr_unvb r
+  | SLog _ args => forallb logarg_unvb args
+  | SIf _ c _ _ => expr_unvb c
+  | SRet _ e => expr_unvb e
+  | SAssert _ e => expr_unvb e
+  end.
+
+(* no element-wise update expression inside *)
+Fixpoint expr_noupd (e : expr) : bool :=
+  let fix l_nu (es : list expr) : bool :=
+      match es with [] => true | x :: tl => expr_noupd x && l_nu tl end in
+  let fix a_nu (acc : list (access expr)) : bool :=
+      match acc with
+      | [] => true
+      | AComp _ :: tl => a_nu tl
+      | AIdx x :: tl => expr_noupd x && a_nu tl
+      end in
+  match e with
+  | ENum _ _ | EVar _ _ | EPhi _ _ => true
+  | EUpdate _ _ _ _ => false
+  | EInfix _ l r _ => expr_noupd l && expr_noupd r
+  | EPrefix _ x _ => expr_noupd x
+  | ESwitch c t f _ => expr_noupd c && expr_noupd t && expr_noupd f
+  | ECall _ args _ => l_nu args
+  | EArray vs _ => l_nu vs
+  | EAccess _ acc _ => a_nu acc
+  end.
+Fixpoint list_noupd (es : list expr) : bool :=
+  match es with [] => true | x :: tl => expr_noupd x && list_noupd tl end.
+Fixpoint acc_noupd (acc : list (access expr)) : bool :=
+  match acc with
+  | [] => true
+  | AComp _ :: tl => acc_noupd tl
+  | AIdx x :: tl => expr_noupd x && acc_noupd tl
+  end.
+Definition logarg_noupd (a : logarg) : bool := match a with LStr => true | LExpr e => expr_noupd e end.
+
+(* an element-wise update  x[i] = e  is lifted to  x = update(x, [i], e) : update
+   expressions stand only at the top of the right-hand side of an assignment to
+   the same variable *)
+Definition stmt_upd_ok (s : stmt) : bool :=
+  match s with
+  | SSubst _ x _ (EUpdate v acc rhe _) _ _ => key_eqb (key_of x) (key_of v) && acc_noupd acc && expr_noupd rhe
+  | SSubst _ _ _ rhe _ _ => expr_noupd rhe
+  | SDecl _ _ _ dims => list_noupd dims
+  | SCeq _ l r => expr_noupd l && expr_noupd r
+  | SLog _ args => forallb logarg_noupd args
+  | SIf _ c _ _ => expr_noupd c
+  | SRet _ e => expr_noupd e
+  | SAssert _ e => expr_noupd e
+  end.
+
+(* the type tag of an assignment says Local exactly when the declarations say so
+   (phi insertion reads the tag, renaming reads the declarations) *)
+Definition stmt_tag_ok (decls : list (vname * vtype)) (s : stmt) : bool :=
+  match s with
+  | SSubst _ x _ _ _ st => Bool.eqb (is_local_in decls x) (match st with Some TLocal => true | _ => false end)
+  | _ => true
+  end.
+
+Fixpoint keys_nodup (l : list key) : bool :=
+  match l with [] => true | k :: tl => negb (existsb (key_eqb k) tl) && keys_nodup tl end.
+Fixpoint nats_nodup (l : list nat) : bool :=
+  match l with [] => true | k :: tl => negb (existsb (Nat.eqb k) tl) && nats_nodup tl end.
+
+(* every successor is a block of the graph and is not the entry block *)
+Definition succs_ok (c : cfg) : bool :=
+  let n := length (c_blocks c) in
+  forallb (fun b => forallb (fun s => (N.to_nat s <? n)%nat && negb (N.eqb s 0)) (b_succs b)) (c_blocks c).
+
+Definition ssa_dyn_pre_ok (c : cfg) : bool :=
+  pre_ssa_ok c &&
+  (0 <? length (c_blocks c))%nat &&
+  forallb (fun b => forallb stmt_unvb (b_stmts b)) (c_blocks c) &&
+  forallb (fun b => forallb stmt_upd_ok (b_stmts b)) (c_blocks c) &&
+  forallb (fun b => forallb (stmt_tag_ok (c_decls c)) (b_stmts b)) (c_blocks c) &&
+  keys_nodup (map key_of (c_params c)) &&
+  succs_ok c.
+
+(* the children table describes a tree below block 0 that holds every block once *)
+Definition children_treeb (children : list (list N)) (n : nat) : bool :=
+  let po := preorder (S n) children 0 in
+  nats_nodup po && forallb (fun i => (i <? n)%nat) po && children_coverb children n.
